@@ -211,6 +211,8 @@ def param_cases(sp, rng, nrng, n):
                                                                         L.flt(PI), L.flt(width), L.flt(oversamp), L.flt(b2))
         else:
             i = rng.randint(1, 24)
+            if oversamp < 1.25:       # outside the property's range the square root may leave the reals (complex branch, not modelled)
+                oversamp = rng.choice([1.25, 1.5, 2.0])
             b1, _ = capture_beta(sp, oversamp, width)
             f = sp.fourier._apodize(np.ones(i, dtype=np.complex128), 1, oversamp, width, b1)
             if np.abs(f.imag).max() > 1e-12 * np.abs(f).max():
@@ -238,7 +240,13 @@ def eval_accuracy(sp, c):
     nd = len(c["shape"])
     y = sp.nufft(c["x"], c["coord"], oversamp=c["oversamp"], width=c["width"])
     ref = nudft(c["x"], c["coord"], nd)
-    res = {"accuracy": rel(y, ref) if np.linalg.norm(ref) > 1e-9 else float(np.linalg.norm(y - ref))}
+    # error relative to the output energy, but not less than the energy a typical coordinate set of the same size receives
+    # (|y_j|^2 ~ ||x||^2 / N): a tight cluster of coordinates sitting in a low-energy region of the spectrum would otherwise
+    # turn an absolute error that is within the kernel's design accuracy into an arbitrarily large relative one
+    npts = int(np.prod(c["coord"].shape[:-1]))
+    N = float(np.prod(c["shape"]))
+    den = max(np.linalg.norm(ref), math.sqrt(npts / N) * np.linalg.norm(c["x"]), 1e-30)
+    res = {"accuracy": float(np.linalg.norm(y - ref) / den), "accuracy-vs-output": rel(y, ref) if np.linalg.norm(ref) > 1e-9 else 0.0}
     # periodicity: k and k + (integer multiples of N) give the same result
     shift = np.array(c["shift"] if "shift" in c else [0] * nd, dtype=np.float64) * np.array(c["shape"], dtype=np.float64)
     y2 = sp.nufft(c["x"], c["coord"] + shift, oversamp=c["oversamp"], width=c["width"])
@@ -255,7 +263,7 @@ def eval_accuracy(sp, c):
                 tie = True
     res["tie"] = tie
     if tie:
-        res["periodic-tie"] = rel(y2, ref) if np.linalg.norm(ref) > 1e-9 else float(np.linalg.norm(y2 - ref))
+        res["periodic-tie"] = float(np.linalg.norm(y2 - ref) / den)
         res["periodic"] = 0.0
     else:
         res["periodic-tie"] = 0.0
@@ -263,7 +271,7 @@ def eval_accuracy(sp, c):
     yy = c["y"]
     ah = sp.nufft_adjoint(yy, c["coord"], oshape=c["bat"] + c["shape"], oversamp=c["oversamp"], width=c["width"])
     refh = nudft_adjoint(yy, c["coord"], c["bat"] + c["shape"], nd)
-    res["adjoint-accuracy"] = rel(ah, refh) if np.linalg.norm(refh) > 1e-9 else 0.0
+    res["adjoint-accuracy"] = float(np.linalg.norm(ah - refh) / max(np.linalg.norm(refh), np.linalg.norm(yy), 1e-30))
     lhs, rhs = np.vdot(yy, y), np.vdot(ah, c["x"])
     res["dot"] = float(abs(lhs - rhs) / max(np.linalg.norm(y) * np.linalg.norm(yy), 1e-30))
     res["shape_ok"] = list(y.shape) == c["bat"] + list(c["coord"].shape[:-1]) and list(ah.shape) == c["bat"] + c["shape"]
@@ -367,6 +375,7 @@ def run(ctx):
         lim = limits(c)
         if r["tie"]:
             ctx.coverage["periodic_checked_at_accuracy_level_because_of_window_ties"] = ctx.coverage.get("periodic_checked_at_accuracy_level_because_of_window_ties", 0) + 1
+        worst["accuracy-vs-output:os%s" % c["oversamp"]] = max(worst.get("accuracy-vs-output:os%s" % c["oversamp"], 0.0), r["accuracy-vs-output"])
         for name in ("accuracy", "adjoint-accuracy", "periodic", "periodic-tie", "dot"):
             key = "%s:os%s" % (name, c["oversamp"])
             worst[key] = max(worst.get(key, 0.0), r[name])
